@@ -101,6 +101,8 @@ func C06(tier rt.Tier) int {
 		us = append(us, universe{name: "chain4", parents: []int{-1, 0, 1, 2}, keys: []string{"k"}, txns: 1, kinds: []int{0}, depth: 40})
 		us = append(us, universe{name: "fork-2txns", parents: []int{-1, 0, 0}, keys: []string{"k"}, txns: 2, kinds: []int{0}, depth: 40})
 		us = append(us, universe{name: "chain3-direct-block-set", parents: []int{-1, 0, 1}, keys: []string{"k"}, txns: 1, kinds: []int{0}, depth: 40, directSet: true})
+		us = append(us, universe{name: "chain3-late-block-hash", parents: []int{-1, 0, 1}, keys: []string{"k"}, txns: 1, kinds: []int{0}, depth: 40, lateHash: true})
+		us = append(us, universe{name: "fork-statecache-remove", parents: []int{-1, 0, 0}, keys: []string{"k"}, txns: 1, kinds: []int{0}, depth: 40, scRemove: true})
 	} else {
 		per = 90 * time.Second
 		for i, s := range shapes(4) {
@@ -136,6 +138,9 @@ func C07(tier rt.Tier) int {
 		ds := mk("chain3-direct-block-set", []int{-1, 0, 1}, []string{"k"}, 1, []int{1, 2, 3})
 		ds.directSet = true
 		us = append(us, ds)
+		lh := mk("fork-late-block-hash", []int{-1, 0, 0}, []string{"k"}, 1, []int{1, 4, 5})
+		lh.lateHash = true
+		us = append(us, lh)
 	} else {
 		per = 90 * time.Second
 		for i, s := range shapes(4) {
